@@ -94,13 +94,12 @@ Definition ex_invoke : list ploop :=
     {| pl_ub := BCellHalo; pl_acc := AInc; pl_disc := false; pl_cont := true; pl_st := None; pl_auw := false; pl_ghwc := false |} ].
 
 Example place_nonvacuous :
-  Forall (fun l => In l (universe false true)) ex_invoke /\ forallb outside_gap ex_invoke = true /\
+  forallb (base_ok false) ex_invoke = true /\ forallb (fun l => pl_cont l) ex_invoke = true /\
+  forallb outside_gap ex_invoke = true /\
   place false ex_invoke =
     [ SLoop [(SLit 0, false)] (Some (SLit 0, false)); SDirty;
       SHx [SVar false 0 0] false;
       SLoop [(SVar false 0 0, true)] None;
-      SLoop [(SLit 0, true)] (Some (SLit 0, true)); SDirty ].
-Proof.
-  split; [|split; vm_compute; reflexivity].
-  repeat constructor; apply (universe_spec false); vm_compute; auto.
-Qed.
+      SLoop [(SLit 0, true)] (Some (SLit 0, true)); SDirty ] /\
+  well_placed 1 false true (place false ex_invoke) = true.
+Proof. vm_compute. repeat split; reflexivity. Qed.
